@@ -709,6 +709,12 @@ func pathOf(v ssa.Value, depth int) string {
 	if depth > 12 {
 		return "…"
 	}
+	if v == nil {
+		return "<nil>"
+	}
+	if o := Origin(v); o != v {
+		return pathOf(o, depth+1)
+	}
 	switch x := v.(type) {
 	case nil:
 		return "<nil>"
